@@ -62,7 +62,55 @@ def c15_oracle(full, io, b):
             m = re.match(r"^([A-Za-z0-9._~/\-]*)\Z", src)
             if m and not src.startswith("//") and p[2] != src:
                 out.append(fail(v, h, "val", f"URL({src!r}) without authority changed its path to {p[2]!r}", "verbatim-without-authority"))
+        # the other entry points: build, with_path, / and joinpath — "equals RFC 3986 5.2.4 remove_dot_segments applied to the
+        # rooted path that was supplied or merged" (auto-encoding; arguments over plain characters, where the non-requoting
+        # quoter only turns '%' into '%25')
+        plain = re.compile(r"^[A-Za-z0-9._~/%\-]*\Z")
+        supplied = None
+        how = None
+        if f[0] == "bld":
+            kw = dict(a.partition("=")[::2] for a in f[2:])
+            if "encoded" not in kw and "authority" not in kw and kw.get("host") and plain.match(dec(kw.get("path", ""))):
+                supplied, how = dec(kw.get("path", "")).replace("%", "%25"), "build(path=%r)" % dec(kw.get("path", ""))
+        elif f[0] == "mod" and f[3] == "with_path" and f[5] == "F" and v.alive(int(f[2])):
+            arg = dec(f[4])
+            bval = v.get(int(f[2]), "val")
+            if plain.match(arg) and bval and bval.startswith("L5:") and dlist(bval)[1]:
+                supplied, how = arg.replace("%", "%25"), "with_path(%r)" % arg
+                if supplied and not supplied.startswith("/"):
+                    supplied = "/" + supplied
+        elif f[0] == "mod" and f[3] in ("truediv", "joinpath") and v.alive(int(f[2])) and (f[3] == "truediv" or f[4] == "F"):
+            args = [dec(a) for a in (f[4:] if f[3] == "truediv" else f[5:])]
+            bval = v.get(int(f[2]), "val")
+            if args and all(plain.match(a) for a in args) and bval and bval.startswith("L5:") and dlist(bval)[1] and not has_dot_segment(dlist(bval)[2]) \
+                    and not any(a.startswith("/") for a in args):
+                bp = dlist(bval)[2]
+                segs = bp.split("/") if bp else [""]
+                if segs[-1] == "":
+                    segs = segs[:-1]
+                if not segs:
+                    segs = [""]
+                for i, a in enumerate(args):
+                    sg = a.replace("%", "%25").split("/")
+                    if i < len(args) - 1 and sg[-1] == "":
+                        sg = sg[:-1]
+                    segs += sg
+                supplied, how = "/".join(segs), "%s(%s) on path %r" % (f[3], ", ".join(map(repr, args)), bp)
+                if not supplied.startswith("/"):
+                    supplied = None
+        if supplied is not None and p[1] and not res_is_error(io[n]):
+            exp = rfc_remove_dot_segments(supplied) if supplied else ""
+            got = p[2] or ""
+            if got != exp:
+                cls = "rds-entry"
+                if f[0] == "mod" and f[3] in ("truediv", "joinpath") and ((exp == "/" and got == "") or (exp.startswith("//") and got == exp[1:])):
+                    cls = "rds-root-consumed"       # listed: a '..' that climbs above the root consumes the root marker
+                out.append(fail(v, h, "val", f"{how}: stored path {got!r}; remove_dot_segments({supplied!r}) = {exp!r}", cls))
     return out
+
+
+def res_is_error(r):
+    return r is None or r.startswith("!")
 
 
 C15_OBS = ["val", "raw_path", "raw_parts"]
@@ -83,6 +131,8 @@ def c15_streams(rng, tier, budget):
     rel = st2.new("/x/y")
     base3 = st2.new("http://h")
     base4 = st2.new("http://h/")
+    for bh in (base, base2, rel, base3, base4):
+        st2.obs_all(bh, C15_OBS)
     for seq in seqs:
         p = "/" + "/".join(seq)
         st2.obs_all(st2.new("http://h" + p), C15_OBS)
@@ -97,6 +147,12 @@ def c15_streams(rng, tier, budget):
             st2.obs_all(st2.mod(rel, "joinpath", "F", *[enc(s) for s in seq]), C15_OBS)
             st2.obs_all(st2.mod(base3, "joinpath", "F", *[enc(s) for s in seq]), C15_OBS)          # empty base path: '..' climbs above the root
             st2.obs_all(st2.mod(base4, "joinpath", "T", *[enc(s) for s in seq]), C15_OBS)
+            if seq[0] != "":
+                st2.obs_all(st2.mod(base3, "truediv", enc("/".join(seq))), C15_OBS)                   # one argument with inner empty segments
+                st2.obs_all(st2.mod(base4, "truediv", enc("/".join(seq))), C15_OBS)
+                bx = st2.new("http://h/x")
+                st2.obs_all(bx, ["val"])
+                st2.obs_all(st2.mod(bx, "truediv", enc("../" + "/".join(seq))), C15_OBS)
             r = st2.new("/".join(seq))
             st2.obs_all(st2.join(base, r), C15_OBS)
     for _ in range(int((100 if tier == "quick" else 1500) * budget)):
